@@ -7,7 +7,7 @@ is_recovering / get_request, RecoveryRequest, DummyFailureManager.recover.
 
 Kernel level. The real RollbackFailureManager._recover rebuilds a recovery workflow
 from the sqlite database (WorkflowBuilder, ProvenanceGraph, StreamFlowExecutor) and is
-NOT executed here: it is replaced by `_stub_recover`, which performs exactly the two
+NOT executed here: it is overridden (KernelRollbackFailureManager._recover) by a stub that performs exactly the two
 things of `_recover` that matter for the retry counter:
 
   1. under the failed job's RecoveryRequest.lock it calls the REAL
@@ -47,7 +47,7 @@ EXPLANATION = (
     "raises an unrecoverable exception / is cancelled) is driven through the real recover -> _do_handle_failure -> _synchronize_workflows -> "
     "_update_request chain on a deterministic event loop with max_retries a solver integer; the number of executions, the outcome "
     "(returns iff an execution within the bound succeeded, raises otherwise), the final version and the ROLLBACK notifications are compared "
-    "with a six-line reference loop; a step budget turns any loop into a violation. With DummyFailureManager the first failure propagates "
+    "with a ten-line reference loop; a step budget turns any loop into a violation. With DummyFailureManager the first failure propagates "
     "as the same exception object after exactly one execution."
 )
 ASSUMPTIONS = [
